@@ -105,32 +105,58 @@ def runChunks (infos : List Info) : Nat → Dev → List Bytes → List String
       let (d1, tok, _) := stepFrame d h pl infos[k]?
       (tok ++ "@" ++ Cpppo.Driver.Logix.dump d1) :: runChunks infos (k + 1) d1 rest
 
-/-- `eng <nstates> <table> <input>`: the crumb loop on an explicit machine; table = entries `s.sym>s'.delta`
-(sym `*` = any symbol, `-` = end of input; delta = symbols consumed (+) or pushed back (-) as `p1`/`m1`/`p0`) -/
-def parseStep (tbl : List (Nat × Option (Option Nat) × Nat × Int)) (s pos : Nat) (sym : Option Nat) :
-    Option (Nat × Nat) :=
-  match tbl.find? (fun e => e.1 == s && (e.2.1 == some sym || (e.2.1 == none && sym.isSome))) with
-  | some (_, _, s', dl) =>
-    let p' : Int := (pos : Int) + dl
-    if p' < 0 then none else some (s', p'.toNat)
-  | none => none
+/-- `eng <kinds> <terminal> <edges> <input hex>`: a `dfa` of plain states over the real engine's rules.
+kinds: per state `p` (plain: consumes nothing) or `c` (consumes one symbol when it runs: `state_drop`);
+terminal: per state `0`/`1`; edges `s.sym>t` joined by ',' with sym a number, `*` (any symbol: `True`) or
+`-` (no-input transition: `None`).  One pass = one state run (`state.run` under `dfa_base.delegate`): the state
+consumes if it is a consuming one (no symbol left: the engine's no-progress AssertionError), then the transition
+for the next symbol is looked up (exact, then `*` if a symbol is there, then `-`). -/
+structure Table where
+  kinds : List Bool
+  terminal : List Bool
+  edges : List (Nat × Option (Option Nat) × Nat)     -- sym: none = `*`, some none = `-`, some (some v)
 
-def parseEntry (s : String) : Option (Nat × Option (Option Nat) × Nat × Int) :=
+def Table.lookup (t : Table) (s : Nat) (sym : Option Nat) : Option Nat :=
+  let find (k : Option (Option Nat)) := (t.edges.find? fun e => e.1 == s && e.2.1 == k).map (·.2.2)
+  match sym with
+  | some v => (find (some (some v))).orElse fun _ => (find none).orElse fun _ => find (some none)
+  | none => find (some none)
+
+def Table.machine (t : Table) (input : List Nat) : Machine :=
+  { nstates := t.kinds.length
+    step := fun s pos _ =>
+      let cons := t.kinds.getD s false
+      if cons && pos ≥ input.length then none
+      else
+        let pos' := if cons then pos + 1 else pos
+        (t.lookup s input[pos']?).map fun s' => (s', pos') }
+
+def parseEdge (s : String) : Option (Nat × Option (Option Nat) × Nat) :=
   match (s.split (· == '>')).toList.map (·.toString) with
   | [l, r] =>
-    match (l.split (· == '.')).toList.map (·.toString), (r.split (· == '.')).toList.map (·.toString) with
-    | [a, sym], [b, dl] => do
+    match (l.split (· == '.')).toList.map (·.toString) with
+    | [a, sym] => do
       let a ← a.toNat?
-      let b ← b.toNat?
+      let b ← r.toNat?
       let sym ← (if sym == "*" then some none else if sym == "-" then some (some none)
                  else sym.toNat?.map (fun v => some (some v)))
-      let dl ← (match dl.toList with
-        | 'p' :: r => (String.ofList r).toNat?.map (fun v => (v : Int))
-        | 'm' :: r => (String.ofList r).toNat?.map (fun v => -(v : Int))
-        | _ => none)
-      pure (a, sym, b, dl)
-    | _, _ => none
+      pure (a, sym, b)
+    | _ => none
   | _ => none
+
+def runTable (t : Table) (input : List Nat) : String :=
+  let m := t.machine input
+  let bound := m.nstates * (input.length + 1)
+  let r := runCrumbs m input (bound + 2) [(0, 0)] (0, 0)
+  let (s, pos) := r.last
+  let cons := t.kinds.getD s false
+  let starved := cons && pos ≥ input.length
+  let sent := if cons && !starved then pos + 1 else pos
+  let outcome :=
+    match r.stop with
+    | .fuel => "fuel"
+    | _ => if starved then "assert" else if t.terminal.getD s false then "ok" else "nonterminal"
+  s!"{r.passes}:{sent}:{outcome}"
 
 def handle : List String → Option String
   | ["c08", mode, maxb, tags, pre, chunks, info] => do
@@ -149,14 +175,12 @@ def handle : List String → Option String
       else if mode == "p" then some (runChunks infos 0 d cs)
       else none
     pure ((if outs.isEmpty then "-" else ";".intercalate outs) ++ s!"#{outs.length}")
-  | ["eng", ns, table, input] => do
-    let ns ← ns.toNat?
-    let tbl ← (splitNonEmpty table ',').mapM parseEntry
+  | ["eng", kinds, terminal, edges, input] => do
+    let edges ← (splitNonEmpty edges ',').mapM parseEdge
     let inp ← bytesOfHex input
-    let m : Machine := { nstates := ns, step := parseStep tbl }
-    let bound := ns * (inp.length + 1)
-    let (n, st) := runCrumbs m inp (bound + 2) [(0, 0)] (0, 0)
-    pure (s!"{n}:" ++ (match st with | .noTransition => "end" | .stasis => "stasis" | .fuel => "fuel"))
+    let t : Table := { kinds := kinds.toList.map (· == 'c'), terminal := terminal.toList.map (· == '1'), edges := edges }
+    if t.kinds.isEmpty || t.kinds.length != t.terminal.length then none else
+    pure (runTable t inp)
   | _ => none
 
 end Cpppo.Driver.Serve
